@@ -33,7 +33,7 @@ use aranya_crypto::{
     DeviceId, Random,
 };
 use aranya_fast_channels::{memory::State, AfcState, AranyaState, Client, Directed, FixedBuf};
-use mcx::{json, rayon::prelude::*, Args, Level, Report, Value};
+use mcx::{json, rayon::prelude::*, Args, Level, Report};
 
 use crate::util::{CtrRng, MinCases};
 
@@ -466,6 +466,3 @@ pub fn run(args: &Args) {
     }
     rep.finish()
 }
-
-#[allow(dead_code)]
-fn _unused(_: Value) {}
